@@ -120,6 +120,21 @@ theorem void_absorbing (σ : K → K) (g : Sym K) (x : Res K) (c : K) :
   refine ⟨rfl, rfl, rfl, rfl, ?_⟩
   cases x <;> rfl
 
+/-- T2'' (neutral on the right of k-resolved results and dictionaries).  `k + Void = k + 0 = k + None = k`
+    (so `sum([k₁, k₂, …])` works) and `d + Void = d + 0 = d + None = d`; on the left `Void + x` returns `x` itself
+    for every kind of result (`VoidResult.__add__`). -/
+theorem void_neutral_right (a : KRes K) (d : RDict K) :
+    a.addRhs .void = .ok a ∧ a.addRhs .zero = .ok a ∧ a.addRhs .none = .ok a ∧
+    d.addRhs .void = .ok d ∧ d.addRhs .zero = .ok d ∧ d.addRhs .none = .ok d :=
+  ⟨rfl, rfl, rfl, rfl, rfl, rfl⟩
+
+omit [Field K] in
+/-- `sum([k₁, k₂])` = `(0 + k₁) + k₂`, where `0 + k₁ = k₁.__radd__(0) = k₁ + 0`: the concatenation of the two -/
+theorem kres_sum_two (a b r : KRes K) (h : a.add b = .ok r) :
+    (a.addRhs .zero).bind (fun s => s.addRhs (.res b)) = .ok r := by
+  simp only [KRes.addRhs, Except.bind]
+  exact h
+
 /-! ## symmetry transformation -/
 
 /-- T3a.  `transform_tensor` is additive: rotation of every tensor axis, transposition / axis swap, conjugation
